@@ -194,10 +194,36 @@ func CopyTree(src, dst string) error {
 	})
 }
 
+var corpusRoot string
+
+// CorpusRoot is where corpus programs are read from: /verif/corpus, or the
+// snapshot a check run took of it at start (so that edits to the corpus while a
+// long run is under way cannot make its cases and references disagree).
+func CorpusRoot() string {
+	if corpusRoot != "" {
+		return corpusRoot
+	}
+	return filepath.Join(simbuild.VerifDir(), "corpus")
+}
+
+// SnapshotCorpus copies the corpus to a scratch directory and makes it the root.
+func SnapshotCorpus() (cleanup func(), err error) {
+	dir, err := os.MkdirTemp(simbuild.ScratchBase(), "verif-corpus-")
+	if err != nil {
+		return nil, err
+	}
+	if err := CopyTree(filepath.Join(simbuild.VerifDir(), "corpus"), dir); err != nil {
+		os.RemoveAll(dir)
+		return nil, err
+	}
+	corpusRoot = dir
+	return func() { os.RemoveAll(dir) }, nil
+}
+
 // CopyCorpus copies corpus program name into the world's source area under dirName.
 func (w *World) CopyCorpus(name, dirName string) (string, error) {
 	dst := filepath.Join(w.Src, dirName)
-	if err := CopyTree(filepath.Join(simbuild.VerifDir(), "corpus", name), dst); err != nil {
+	if err := CopyTree(filepath.Join(CorpusRoot(), name), dst); err != nil {
 		return "", err
 	}
 	return dst, nil
